@@ -52,7 +52,7 @@ func c09Find(d vDoc) (planted []c09Planted, fillerBeforeFirst bool) {
 	return
 }
 
-var c09BadValues = []string{"bar", "1,5", "1.2.3", "5 g", "12abc", "--5", "1e", "e5", "0..5", "½", "１２", "5%", "abc def", "$3"}
+var c09BadValues = []string{"bar", "1,5", "1.2.3", "5 g", "12abc", "--5", "1e", "e5", "0..5", "½", "１２", "5%", "abc def", "$3", "+", "+.", "-.", ".", "e", "+e1", "0x", "1e+", "+-1", "5;", "1:2"}
 
 func genC09Malformed(t *rapid.T, names []string, label string) string {
 	indent := vIndents[rapid.IntRange(0, len(vIndents)-1).Draw(t, label+".indent")]
@@ -288,6 +288,9 @@ func genC09(t *rapid.T) c09Case {
 		kl = rapid.IntRange(1, 3).Draw(t, "kl")
 		kb = rapid.IntRange(1, 3).Draw(t, "kb")
 	}
+	if rapid.IntRange(0, 39).Draw(t, "many") == 0 { // more malformed lines than any plausible cap on reported errors
+		kl = rapid.IntRange(1001, 1300).Draw(t, "klmany")
+	}
 	c09Plant(t, &s.Book, kb, names, "pb")
 	c09Plant(t, &s.Log, kl, names, "pl")
 	c := c09Case{S: s, Silent: rapid.Bool().Draw(t, "silent"), Bin: rapid.IntRange(0, 24).Draw(t, "bin") == 0}
@@ -306,6 +309,6 @@ func init() { vRegister("C09", "c09.random", checkC09) }
 
 func TestVerifC09Random(t *testing.T) {
 	vRapid(t, "C09", "c09.random",
-		"well-formed books and logs (blank lines, column-0 comments, notes, LF/CRLF/mixed, every entry layout) with k in 0..5 malformed entries (no value, no blank before the value, dash without value, non-numeric value of 14 kinds) planted at random positions after the first heading of the log, the book or both; 16 commands (a third of the cases with a global -b/-e period that may exclude the day holding the malformed line) + lint with/without --silent (1/25 of the cases through the real binary); oracle by construction: line number and raw text of each planted line; non-trivial = k>=1 and a blank/comment/note line before the first malformed line",
+		"well-formed books and logs (blank lines, column-0 comments, notes, LF/CRLF/mixed, every entry layout) with k in 0..5 (1 case in 40: 1001..1300) malformed entries (no value, no blank before the value, dash without value, non-numeric value of 14 kinds) planted at random positions after the first heading of the log, the book or both; 16 commands (a third of the cases with a global -b/-e period that may exclude the day holding the malformed line) + lint with/without --silent (1/25 of the cases through the real binary); oracle by construction: line number and raw text of each planted line; non-trivial = k>=1 and a blank/comment/note line before the first malformed line",
 		vBudget(3200, 64000), genC09, checkC09)
 }
